@@ -20,7 +20,7 @@ theorem CssRef_mode {text : Bytes} {s : CSt} {k : CssS} (hj : CssRef text s k) :
     exact Or.inr ⟨h1, by rw [h3]; exact h4⟩
   · obtain ⟨h1, h3, h4, _⟩ := hj
     exact Or.inr ⟨h1, by rw [h3]; exact h4⟩
-  · obtain ⟨h1, h3, h4, _⟩ := hj
+  · obtain ⟨h1, h3, h4⟩ := hj
     exact Or.inr ⟨h1, by rw [h3]; exact h4⟩
 
 theorem sw_css_lt_false (U : Unicode) {text : Bytes} {s : CSt} (hmode : CssMode s)
@@ -61,7 +61,7 @@ theorem CssRef_lt {text : Bytes} {s : CSt} {k : CssS} (hj : CssRef text s k) (p 
     obtain ⟨h1, h3, h4, _⟩ := hj
     exact ⟨h1, h3, h4⟩
   · next q =>
-    obtain ⟨h1, h3, h4, _⟩ := hj
+    obtain ⟨h1, h3, h4⟩ := hj
     have : cssStep (.strBs q) 0x3c = .str q := by
       rcases h4 with rfl | rfl <;> simp [cssStep, cssStr]
     rw [this]; exact ⟨h1, h3, h4⟩
@@ -160,7 +160,7 @@ theorem css_string {U : Unicode} {text : Bytes} {lo n : Nat} (H : Hole text lo n
     {c : UInt8} (hc : text[s.pos]? = some c) (h3c : c ≠ 0x3c)
     (hctx : s.ctx = ContextCSSString) (hjc : s.jsComment = 0) {q : UInt8} (hq : s.quote = q)
     (hqq : q = 0x22 ∨ q = 0x27) (htc : s.tagCtx = ContextHTML) (hu : s.url = false) {k : CssS}
-    (hk : k = .str q ∨ ((k = .strEsc q ∨ k = .strBs q) ∧ c ≠ q))
+    (hk : k = .str q ∨ k = .strBs q ∨ (k = .strEsc q ∧ c ≠ q ∧ c ≠ 0x5c))
     (hb : cssStep k c ≠ .bad)
     (hr1 : rs text (s.pos + 1) = .raw (.css (cssStep k c)) 0) : StepOK U text n s := by
   obtain ⟨c2, hc2⟩ := H.get (i := s.pos + 1) hlt
@@ -170,6 +170,13 @@ theorem css_string {U : Unicode} {text : Bytes} {lo n : Nat} (H : Hole text lo n
   have hq0d : (0x0d : UInt8) ≠ q := by rcases hqq with rfl | rfl <;> decide
   by_cases hbs : c = 0x5c
   · subst hbs
+    -- the reference is in `str` / `strBs` and goes to `strEsc`
+    have hk1 : cssStep k 0x5c = .strEsc q := by
+      rcases hk with rfl | rfl | ⟨_, _, h⟩
+      · simp [cssStep, cssStr]
+      · simp [cssStep, cssStr]
+      · exact absurd rfl h
+    rw [hk1] at hr1
     by_cases h1 : c2 = q
     · subst h1
       have hlt1 : s.pos + 1 < n := H.lt_of_ne hlt hc2 hq7b
@@ -177,36 +184,42 @@ theorem css_string {U : Unicode} {text : Bytes} {lo n : Nat} (H : Hole text lo n
       have hsw : ctxSwitchP U text s 0x5c = ({ s with pos := s.pos + 1 }, true) := by
         simp only [ctxSwitchP, hctx, caseCSSP, hq, hc2]
         simp [ContextHTML, ContextTag, ContextQuotedAttr, ContextUnquotedAttr, ContextCSS, ContextCSSString]
-      have hk2 : cssStep (cssStep k 0x5c) c2 = .str c2 := by
-        rcases hk with rfl | ⟨rfl | rfl, hne⟩
-        · simp [cssStep, cssStr, hq5c]
-        · exfalso; simp [RawK.step, cssStep, RawK.isBad] at hb2
-        · simp [cssStep, cssStr, hq5c.symm, hq5c]
+      have hk2 : cssStep (.strEsc c2) c2 = .str c2 := by simp [cssStep, hq5c]
       simp only [RawK.step, hk2, hq3c, if_false] at hr2
       refine finish_tail hc hsw (by decide) (by simp) hlt1 ?_
       show R text _ (rs text (s.pos + 1 + 1))
       rw [hr2]
       exact R_css (by simp) (by simp) htc hu hjc ⟨hctx, hq, hqq⟩
-    · have hsw : ctxSwitchP U text s 0x5c = (s, true) := by
-        simp only [ctxSwitchP, hctx, caseCSSP, hq, hc2]
-        simp [ContextHTML, ContextTag, ContextQuotedAttr, ContextUnquotedAttr, ContextCSS, ContextCSSString, h1]
-      have hne : text[s.pos + 1]? ≠ some q := by rw [hc2]; simpa using h1
-      refine finish_tail hc hsw (by decide) (Nat.le_refl _) hlt ?_
-      rw [hr1]
-      rcases hk with rfl | ⟨rfl | rfl, _⟩
-      · have : cssStep (.str q) 0x5c = .strEsc q := by simp [cssStep, cssStr]
-        rw [this]; exact R_css (Nat.zero_le _) (by simp) htc hu hjc ⟨hctx, hq, hqq, hne⟩
-      · have : cssStep (.strEsc q) 0x5c = .strBs q := by simp [cssStep]
-        rw [this]; exact R_css (Nat.zero_le _) (by simp) htc hu hjc ⟨hctx, hq, hqq, hne⟩
-      · have : cssStep (.strBs q) 0x5c = .strEsc q := by simp [cssStep, cssStr, hq5c.symm]
-        rw [this]; exact R_css (Nat.zero_le _) (by simp) htc hu hjc ⟨hctx, hq, hqq, hne⟩
+    · by_cases h2 : c2 = 0x5c
+      · subst h2
+        have hlt1 : s.pos + 1 < n := H.lt_of_ne hlt hc2 (by decide)
+        obtain ⟨hb2, hr2⟩ := raw_rs1 H hr1 (Nat.zero_le _) (by simp) hlt1 hc2
+        have hsw : ctxSwitchP U text s 0x5c = ({ s with pos := s.pos + 1 }, true) := by
+          simp only [ctxSwitchP, hctx, caseCSSP, hq, hc2]
+          simp [ContextHTML, ContextTag, ContextQuotedAttr, ContextUnquotedAttr, ContextCSS, ContextCSSString]
+        have hk2 : cssStep (.strEsc q) 0x5c = .strBs q := by simp [cssStep]
+        simp only [RawK.step, hk2, (by decide : (0x5c : UInt8) ≠ 0x3c), if_false] at hr2
+        refine finish_tail hc hsw (by decide) (by simp) hlt1 ?_
+        show R text _ (rs text (s.pos + 1 + 1))
+        rw [hr2]
+        exact R_css (by simp) (by simp) htc hu hjc ⟨hctx, hq, hqq⟩
+      · have hsw : ctxSwitchP U text s 0x5c = (s, true) := by
+          simp only [ctxSwitchP, hctx, caseCSSP, hq, hc2]
+          simp [ContextHTML, ContextTag, ContextQuotedAttr, ContextUnquotedAttr, ContextCSS, ContextCSSString,
+            h1, h2]
+        have hne : text[s.pos + 1]? ≠ some q := by rw [hc2]; simpa using h1
+        have hne2 : text[s.pos + 1]? ≠ some 0x5c := by rw [hc2]; simpa using h2
+        refine finish_tail hc hsw (by decide) (Nat.le_refl _) hlt ?_
+        rw [hr1]
+        exact R_css (Nat.zero_le _) (by simp) htc hu hjc ⟨hctx, hq, hqq, hne, hne2⟩
   · by_cases hcq : c = q
     · subst hcq
       have hsw : ctxSwitchP U text s c = ({ s with ctx := ContextCSS, quote := 0 }, true) := by
         simp only [ctxSwitchP, hctx, caseCSSP, hq]
         simp [ContextHTML, ContextTag, ContextQuotedAttr, ContextUnquotedAttr, ContextCSS, ContextCSSString, hbs]
       have hk1 : cssStep k c = .code := by
-        rcases hk with rfl | ⟨_, hne⟩
+        rcases hk with rfl | rfl | ⟨_, hne, _⟩
+        · simp [cssStep, cssStr, hbs]
         · simp [cssStep, cssStr, hbs]
         · exact absurd rfl hne
       rw [hk1] at hr1
@@ -218,14 +231,14 @@ theorem css_string {U : Unicode} {text : Bytes} {lo n : Nat} (H : Hole text lo n
         simp [ContextHTML, ContextTag, ContextQuotedAttr, ContextUnquotedAttr, ContextCSS, ContextCSSString,
           hbs, hcq, h3c]
       have hk1 : cssStep k c = .str q := by
-        rcases hk with rfl | ⟨rfl | rfl, _⟩
+        rcases hk with rfl | rfl | ⟨rfl, _⟩
+        · by_cases hnl : c = 10 ∨ c = 13 ∨ c = 12
+          · exfalso; apply hb; rcases hnl with rfl | rfl | rfl <;> simp [cssStep, cssStr, hcq]
+          · simp only [not_or] at hnl; simp [cssStep, cssStr, hbs, hcq, hnl.1, hnl.2.1, hnl.2.2]
         · by_cases hnl : c = 10 ∨ c = 13 ∨ c = 12
           · exfalso; apply hb; rcases hnl with rfl | rfl | rfl <;> simp [cssStep, cssStr, hcq]
           · simp only [not_or] at hnl; simp [cssStep, cssStr, hbs, hcq, hnl.1, hnl.2.1, hnl.2.2]
         · simp [cssStep, hbs]
-        · by_cases hnl : c = 10 ∨ c = 13 ∨ c = 12
-          · exfalso; apply hb; rcases hnl with rfl | rfl | rfl <;> simp [cssStep, cssStr, hcq]
-          · simp only [not_or] at hnl; simp [cssStep, cssStr, hbs, hcq, hnl.1, hnl.2.1, hnl.2.2]
       rw [hk1] at hr1
       refine css_tail_free H hlt hc hsw rfl htc hu hjc hr1 (fun p => ⟨hctx, hq, hqq⟩) ?_
       intro _; left
@@ -252,12 +265,12 @@ theorem step_css {U : Unicode} {text : Bytes} {lo n : Nat} (H : Hole text lo n) 
     obtain ⟨hctx, hq, hqq⟩ := hj
     exact css_string H hlt hc h3c hctx hjc hq hqq htc hu (Or.inl rfl) hb' hr1
   · next q =>
-    obtain ⟨hctx, hq, hqq, hn⟩ := hj
+    obtain ⟨hctx, hq, hqq, hn, hn2⟩ := hj
     have hcq : c ≠ q := by intro h; subst h; exact hn hc
-    exact css_string H hlt hc h3c hctx hjc hq hqq htc hu (Or.inr ⟨Or.inl rfl, hcq⟩) hb' hr1
+    have hc5c : c ≠ 0x5c := by intro h; subst h; exact hn2 hc
+    exact css_string H hlt hc h3c hctx hjc hq hqq htc hu (Or.inr (Or.inr ⟨rfl, hcq, hc5c⟩)) hb' hr1
   · next q =>
-    obtain ⟨hctx, hq, hqq, hn⟩ := hj
-    have hcq : c ≠ q := by intro h; subst h; exact hn hc
-    exact css_string H hlt hc h3c hctx hjc hq hqq htc hu (Or.inr ⟨Or.inr rfl, hcq⟩) hb' hr1
+    obtain ⟨hctx, hq, hqq⟩ := hj
+    exact css_string H hlt hc h3c hctx hjc hq hqq htc hu (Or.inr (Or.inl rfl)) hb' hr1
 
 end ScriggoV.LexCtx
